@@ -239,9 +239,10 @@ PROPS = {
     "C02": dict(
         props="Props/C02.v", tables=["core", "json", "glencoe", "fide", "uvl", "afm"],
         suites=[suite_json.run, suite_glencoe.run, suite_xml.run_fide, suite_xml.run_fama, suite_uvl.run, suite_afm.run,
-                suite_glencoe.run_third_party, suite_xml.run_fide_third_party],
+                suite_glencoe.run_third_party, suite_xml.run_fide_third_party, suite_afm.run_third_party, suite_uvl.run_c04],
         suite_prefixes=["R-"], clause_prefixes=["graph:"],
-        rule=("the reader suites of C01/C05/C06/C07/C08/C09 (R-json, R-glencoe, R-fide, R-fama, R-uvl, R-afm, R-*-3p): every "
+        rule=("the reader suites of C01/C04/C05/C06/C07/C08/C09 (R-json, R-glencoe, R-fide, R-fama, R-uvl, R-uvl-emitter, R-afm, "
+              "R-*-3p): every "
               "model a reader returns is dumped WITH its back pointers (parent of every feature, parent of every relation, "
               "owner of every attribute, as paths) and compared with the pointer-annotated reader model; oracle graph_wf walks "
               "the returned object graph through public attributes only: root parentless, every child's parent is the feature "
